@@ -39,7 +39,30 @@ class Bomb:
         return "<value whose every use raises a bare %s>" % self.name
 
 
+class Handle:
+    """a plain object (equal only to itself); `Handle.get(n)` returns the same object for the same n, so several fields of one
+    input - and a member of a list field - can hold ONE object"""
+
+    _all = {}
+
+    def __init__(self, n):
+        self.n = n
+
+    @classmethod
+    def get(cls, n):
+        if n not in cls._all:
+            cls._all[n] = cls(n)
+        return cls._all[n]
+
+    def __repr__(self):
+        return "<handle #%d>" % self.n
+
+
 def enc(v):
+    if isinstance(v, Handle):
+        return {"t": "handle", "v": v.n}
+    if type(v).__name__ == "lock":
+        return {"t": "lock"}
     if isinstance(v, Bomb):
         return {"t": "bomb", "v": v.name}
     if v is None:
@@ -71,6 +94,12 @@ def dec(d):
     t = d["t"]
     if t == "bomb":
         return Bomb(d["v"])
+    if t == "handle":
+        return Handle.get(d["v"])
+    if t == "lock":
+        import threading
+
+        return threading.Lock()
     if t == "none":
         return None
     if t == "bool":
